@@ -190,6 +190,63 @@ impl Property for C01 {
                     )
                 }),
             },
+            // regression probes distilled from seeded changes (no entry in known_findings.json: they must pass)
+            Probe {
+                signature: "regress:bit-store-order-parameters",
+                what: "struct G<S: BitStore, O: BitOrder> { bits: BitVec<S, O>, o: Option<BitVec<S, O>>, len: u32 } with three instantiations, both registry orders",
+                run: Box::new(|| {
+                    for rev in [false, true] {
+                        let mut prog = probe_prog(
+                            vec![
+                                ("bits", Ty::BitVecP(Box::new(Ty::Param(0)), Box::new(Ty::Param(1)))),
+                                ("o", Ty::Opt(Box::new(Ty::BitVecP(Box::new(Ty::Param(0)), Box::new(Ty::Param(1)))))),
+                                ("len", Ty::Prim(Prim::U32)),
+                            ],
+                            vec![],
+                            vec!["S", "O"],
+                            vec![
+                                vec![Ty::Prim(Prim::U8), Ty::BitOrder(false)],
+                                vec![Ty::Prim(Prim::U16), Ty::BitOrder(true)],
+                                vec![Ty::Prim(Prim::U64), Ty::BitOrder(false)],
+                            ],
+                        );
+                        prog.defs[0].params[0].bitstore = true;
+                        prog.defs[0].params[1].bitorder = true;
+                        if rev {
+                            prog.roots.reverse();
+                        }
+                        wire_probe(&prog, "regress:bit-store-order-parameters")?;
+                    }
+                    Ok(())
+                }),
+            },
+            Probe {
+                signature: "regress:compact-attribute-on-parameter",
+                what: "struct H<N: HasCompact, X> { #[codec(compact)] number: N, c: Compact<N>, x: Vec<X> } with two instantiations, both registry orders",
+                run: Box::new(|| {
+                    for rev in [false, true] {
+                        let mut prog = probe_prog(
+                            vec![
+                                ("number", Ty::Param(0)),
+                                ("c", Ty::Compact(Box::new(Ty::Param(0)))),
+                                ("x", Ty::Seq(SeqKind::Vec, Box::new(Ty::Param(1)))),
+                            ],
+                            vec![],
+                            vec!["N", "X"],
+                            vec![vec![Ty::Prim(Prim::U32), Ty::Prim(Prim::I8)], vec![Ty::Prim(Prim::U64), Ty::Prim(Prim::I16)]],
+                        );
+                        prog.defs[0].params[0].compactable = true;
+                        if let Body::Struct(Fields::Named(f)) = &mut prog.defs[0].body {
+                            f[0].compact_attr = true;
+                        }
+                        if rev {
+                            prog.roots.reverse();
+                        }
+                        wire_probe(&prog, "regress:compact-attribute-on-parameter")?;
+                    }
+                    Ok(())
+                }),
+            },
         ]
     }
     fn id(&self) -> &'static str {
